@@ -300,7 +300,10 @@ func (s *Handler) run() {
 func (s *Handler) ReloadConf(newConf *conf.Path) {
 	ctx := s.ctx
 
+	// the source is not running (on demand, nobody is reading):
+	// it will be started with the new configuration.
 	if !s.running {
+		s.Conf = newConf
 		return
 	}
 
